@@ -122,10 +122,18 @@ func (rc *recorder) jitter() {
 	}
 }
 
+// onRunLocked, when set by a scenario, is told about every "run.locked" (still under the rerunner's lock).
+var onRunLocked func(rr interface{}, stopped bool)
+
 func hook(point string, args ...interface{}) {
 	rc := rec
 	if rc == nil {
 		return
+	}
+	if point == "run.locked" {
+		if f := onRunLocked; f != nil {
+			f(args[0], args[1].(bool))
+		}
 	}
 	e := &Event{Ev: point, gid: gate.GoID()}
 	switch point {
@@ -389,6 +397,31 @@ func runScenario(rc *recorder, sh Shape, seed int64, maxBump, maxFail int, spawn
 		rc.mu.Lock()
 		rc.add(&Event{Ev: "stop.returned", R: name})
 		rc.mu.Unlock()
+	}
+	// Stop racing a RE-run's write-then-read delay: the run holds the rerunner's lock while it sleeps, so a
+	// Stop issued at that moment has to wait for the whole run (C04: once Stop returns no run is in progress).
+	rx.WriteThenReadDelay = 0
+	onRunLocked = nil
+	if !stopEarly && r.Intn(3) == 0 && !(len(sh.RR) > 1 && len(sh.Res) > 0) {
+		rx.WriteThenReadDelay = 2 * time.Millisecond
+		victim := sh.RR[r.Intn(len(sh.RR))]
+		vrr := s.rr[victim]
+		runs := 0
+		var once sync.Once
+		onRunLocked = func(rr interface{}, stopped bool) {
+			if rr != interface{}(vrr) || stopped {
+				return
+			}
+			runs++
+			if runs >= 2 {
+				once.Do(func() {
+					go func() { // quiesce() below waits for it
+						time.Sleep(300 * time.Microsecond)
+						stop(victim)
+					}()
+				})
+			}
+		}
 	}
 	if stopEarly {
 		wg.Add(1)
